@@ -33,7 +33,7 @@ func CheckDataRefs(reg template.Registry) (err error) {
 		// check that all params appear in the usedKeys
 		var unusedParamNames []string
 		for _, param := range tc.params {
-			if !contains(tc.usedKeys, param) {
+			if !contains(tc.usedKeys, param) && !contains(tc.forwardedParams, param) {
 				unusedParamNames = append(unusedParamNames, param)
 			}
 		}
@@ -50,6 +50,10 @@ type templateChecker struct {
 	letVars  []string
 	forVars  []string
 	usedKeys []string
+
+	// forwardedParams are the params passed on by a data="all" call. (kept apart
+	// from usedKeys: data="all" passes params, never {let} variables of that name)
+	forwardedParams []string
 }
 
 func newTemplateChecker(reg template.Registry, tpl template.Template) *templateChecker {
@@ -57,7 +61,7 @@ func newTemplateChecker(reg template.Registry, tpl template.Template) *templateC
 	for _, param := range tpl.Doc.Params {
 		paramNames = append(paramNames, param.Name)
 	}
-	return &templateChecker{reg, paramNames, nil, nil, nil}
+	return &templateChecker{reg, paramNames, nil, nil, nil, nil}
 }
 
 func (tc *templateChecker) checkTemplate(node ast.Node) {
@@ -120,7 +124,7 @@ func (tc *templateChecker) checkCall(node *ast.CallNode) {
 	if node.AllData {
 		for _, param := range tc.params {
 			if contains(allCalleeParamNames, param) {
-				tc.usedKeys = append(tc.usedKeys, param)
+				tc.forwardedParams = append(tc.forwardedParams, param)
 				callerParamNames = append(callerParamNames, param)
 			}
 		}
